@@ -131,6 +131,7 @@ def run_arb_case(case, judged):
     upstream, origins = [], []
     slots = case.get("slots") or list(range(n))
     objs = {}
+    tied = {}       # initiator -> {member: constant value} for members replaced by compliant constants
     for pos_, i in enumerate(slots):
         d = case["intrs"][i]
         if i in objs:
@@ -162,6 +163,26 @@ def run_arb_case(case, judged):
                 pass
         origins.append(origin)
         objs[i] = ib
+        if origin == "plain" and d["behaviour"] not in ("parker", "burster", "patient", "locker") and rng.random() < 0.12:
+            # output members tied off with constants the signature accepts as compliant (an initiator that never locks /
+            # always bursts the same way / a port that is not used in this build): modelled as constant request values
+            from amaranth import Const
+            feat_ = set(d["features"])
+            what_ = rng.choice([f_ for f_ in ("lock", "cti", "bte") if f_ in feat_] * 2 + ["cyc"])
+            if what_ == "lock":
+                v_ = rng.getrandbits(1)
+                spelled_ = rng.choice([v_, bool(v_), Const(v_, 1)])
+            elif what_ == "cti":
+                v_ = rng.choice([0, 1, 2, 7])
+                spelled_ = rng.choice([wishbone.CycleType(v_), Const(v_, 3)])
+            elif what_ == "bte":
+                v_ = rng.getrandbits(2)
+                spelled_ = rng.choice([wishbone.BurstTypeExt(v_), Const(v_, 2)])
+            else:
+                v_ = 0
+                spelled_ = rng.choice([0, Const(0, 1)])
+            setattr(ib, what_, spelled_)
+            tied[i] = {what_: v_}
         if rng.random() < 0.15:
             # an incompatible initiator is refused; the arbiter keeps being used afterwards and the refused
             # interface stays alive in the design, driving its own request lines
@@ -299,8 +320,12 @@ def run_arb_case(case, judged):
                     st["hold"][i], st["held"][i] = 0, None
                 mon.count("quiet_cycles")
             for i, r in enumerate(reqs):
+                if i in tied:
+                    r = reqs[i] = dict(r, **tied[i])
+                    mon.count("initiator_cycles_with_a_member_tied_to_a_constant")
                 for k, v in r.items():
-                    setv(ctx, getattr(intrs[i], k), v)
+                    if i not in tied or k not in tied[i]:
+                        setv(ctx, getattr(intrs[i], k), v)
             for bad in rejected:      # not an initiator of this arbiter: whatever it does must have no effect
                 ctx.set(bad.cyc, rng.getrandbits(1))
                 ctx.set(bad.stb, rng.getrandbits(1))
